@@ -89,9 +89,11 @@ func largeNameJobs(c *Ctx, prop string, archs []string, boundary []int) ([]run.J
 			jobs = append(jobs, run.Job{ID: fmt.Sprintf("large/%s/table-in-%d-groups(%d names)", a, k, len(ns)), Pkg: run.Module, Harness: "H_Policy", Params: p, Weight: len(ns)})
 		}
 		// unbalanced splits: short early groups in front of a long one (their jumps are bridged while the
-		// long group's are in reach of the tail), and a long group in the middle
+		// long group's are in reach of the tail), a long group in the middle, and several one-name groups
+		// whose returns compete for the place behind the same jump (needs a third resolution pass), a one-name
+		// group in front of a long one, and a first jump exactly 256 away from its return (121 + 254 on x86_64)
 		if a == archs[0] && len(ns) > 340 {
-			for ui, sizes := range [][]int{{10, 10, 310}, {3, 300, 3, 30}} {
+			for ui, sizes := range [][]int{{10, 10, 310}, {3, 300, 3, 30}, {2, 1, 1, 300}, {1, 339}, {121, 254}} {
 				var gs []LargeGroup
 				at := 0
 				for _, sz := range sizes {
